@@ -10,7 +10,7 @@ T: random layouts with up to hundreds of files, traces validated against BlockPa
 import os
 import random
 
-from lib import btc, chains, layout, run, tracecheck
+from lib import btc, chains, datadir, layout, run, tracecheck
 
 
 def replay(w, obs, rng, coin, h0, variant):
@@ -128,5 +128,33 @@ def main(ck, tier, w):
         if probs:
             ck.violation('; '.join(probs), {'scenario': {'blocks': j[0], 'files': j[1], 'mode': j[2]}, 'observed': r.brief(),
                                             'trace_verdict': v, 'tags': []})
+    # ---- blocks of identical size, unpadded, in random physical order over a few files (block h+1 often starts in another file
+    # at the very offset where block h ended); and one chain interleaved over 600 files that are all open at the same time
+    jobs = [('equal', i) for i in range(4 if quick else 24)] + [('many', 0)]
+
+    def xjob(j):
+        kind, i = j
+        r0 = random.Random('%d-c03-%s-%d' % (run.seed(), kind, i))
+        if kind == 'equal':
+            n, nf = 50, r0.choice([2, 3, 5])
+            blocks = datadir.linear_chain(n, txs_fn=lambda h: [btc.coinbase(h, btc.p2pkh(h.to_bytes(4, 'big') * 5))])
+            pl = layout.random_placement(r0, n, nf, 'random')
+            d = layout.materialise(w.sub('dd'), blocks, pl, r0, pad=False, fileno={f: f for f in range(nf)}, namer=lambda k: 'blk%05d.dat' % k)
+            r = layout.run_csv(w, d, 'bitcoin', 0, None)
+        else:
+            nf = 600
+            n = 2 * nf
+            blocks = datadir.linear_chain(n, txs_fn=lambda h: [btc.coinbase(h, btc.p2pkh(h.to_bytes(4, 'big') * 5))])
+            pl = layout.random_placement(r0, n, nf, 'interleaved')
+            d = layout.materialise(w.sub('dd'), blocks, pl, r0, fileno={f: f for f in range(nf)}, namer=lambda k: 'blk%05d.dat' % k)
+            r = layout.run_csv(w, d, 'bitcoin', 0, None, nofile=4096)
+        probs = ['exit status %d: %s' % (r.rc, r.stderr[-300:])] if r.rc != 0 else layout.compare_csv(r, layout.expected_csv(blocks, range(n), 'bitcoin'), 0, n - 1)
+        return j, nf, probs, r
+    for j, nf, probs, r in chains.pmap(xjob, jobs, 6):
+        ck.evals()
+        ck.distinct(('x',) + j)
+        if probs:
+            ck.violation('%s layout over %d files: %s' % ('equal-size unpadded random' if j[0] == 'equal' else 'interleaved (all files open at once)', nf, '; '.join(probs[:3])),
+                         {'layout': j[0], 'files': nf, 'observed': r.brief(), 'tags': []})
     ck.assumptions += ['index records are those of a consistent Bitcoin Core block index (one record per block hash)',
                        'blk file numbers up to 2^63, offsets below 4 GiB in quick (one sparse multi-GiB offset in thorough)']
